@@ -260,8 +260,17 @@ fn c09(tier: &str, seed: u64) -> GridCheck {
     cfg.handler_block = 0.7;
     let count = if tier == "quick" { 240 } else { 3000 };
     c.progs = sample(seed, 0x0900, count, &cfg, &|i| Some(macs[i % 6]));
+    // task-spawning macros: a quarter of the programs use a custom joiner that awaits the spawned
+    // branches one after the other - the tasks must nevertheless all be running
+    for (i, p) in c.progs.iter_mut().enumerate() {
+        let k = p.kind();
+        if k.is_spawn && (i / 6) % 4 == 1 && p.branches.len() <= 8 && p.flavor == Flavor::Res {
+            p.opts.joiner = Some(if k.is_try { "jv_atryseq" } else { "jv_aseq" }.to_string());
+            p.opts.order = vec![1];
+        }
+    }
     c.budget = if tier == "quick" { 48 } else { 256 };
-    c.rule = "programs: random grid programs under the six async macro names; every future-returning harness callback (initial values, and_then / or_else / then / `->` callbacks, handlers) awaits a gate. Schedules: wake-up orders enumerated systematically (odometer over the choice points met), then random orders with batches (two gates opened before the next poll) and spurious polls; gate selection all / first / last of each cell. Oracle under the deterministic executor: (a) building - and dropping - the future logs nothing; (b) once a step starts every active branch reaches its first pending point; (c) opening a gate notifies the macro's future (non-spawn) ; (d) the branch whose gate opened reaches its next pending point although siblings are pending; (e) the future is never left pending with every gate open and no wake-up outstanding, and completes with the model's value. Non-trivial = >=2 branches, >=2 decisions, gates opened out of index order".to_string();
+    c.rule = "programs: random grid programs under the six async macro names; every future-returning harness callback (initial values, and_then / or_else / then / `->` callbacks, handlers) awaits a gate. Schedules: wake-up orders enumerated systematically (odometer over the choice points met), then random orders with batches (two gates opened before the next poll) and spurious polls; gate selection all / first / last of each cell; a quarter of the task-spawning programs use a custom joiner that awaits the spawned branches one after the other. Oracle under the deterministic executor: (a) building - and dropping - the future logs nothing; (b) once a step starts every active branch reaches its first pending point; (c) opening a gate notifies the macro's future (non-spawn) ; (d) the branch whose gate opened reaches its next pending point although siblings are pending; (e) the future is never left pending with every gate open and no wake-up outstanding, and completes with the model's value. Non-trivial = >=2 branches, >=2 decisions, gates opened out of index order".to_string();
     c
 }
 
@@ -399,9 +408,17 @@ fn c19(tier: &str, seed: u64) -> GridCheck {
     cfg.handler = 0.4;
     let count = if tier == "quick" { 480 } else { 4800 };
     c.progs = sample(seed, 0x1900, count, &cfg, &|i| Some(["join", "try_join"][i % 2]));
+    // wide programs too: per-step bookkeeping over many branches must stay on the stack
+    let mut wide = cfg.clone();
+    wide.n = (20, 40);
+    wide.depth = (1, 3);
+    wide.cell = (0, 1);
+    wide.wrappers = 0.0;
+    wide.equal_depths = 0.5;
+    c.progs.extend(sample(seed, 0x1901, if tier == "quick" { 24 } else { 120 }, &wide, &|i| Some(["join", "try_join"][i % 2])));
     c.budget = if tier == "quick" { 24 } else { 96 };
     c.features = vec!["countalloc"];
-    c.rule = "allocation stage: random grid programs under join! / try_join! (1-6 branches, 1-4 steps, wrappers, block captures, let names, handlers) whose user code (harness callbacks over move-only tokens, event log switched to a preallocated buffer) performs no heap allocation; inputs: the all-succeed plan plus enumerated / sampled failure plans; oracle: the per-thread allocation counter of a counting global allocator does not change across the macro expression (and the value is the model's, so the measured evaluation did what it should). Non-trivial = >= 2 branches, >= 2 steps and a `??`".to_string();
+    c.rule = "allocation stage: random grid programs under join! / try_join! (1-6 branches, 1-4 steps, wrappers, block captures, let names, handlers; plus wide ones with 20-40 branches) whose user code (harness callbacks over move-only tokens, event log switched to a preallocated buffer) performs no heap allocation; inputs: the all-succeed plan plus enumerated / sampled failure plans; oracle: the per-thread allocation counter of a counting global allocator does not change across the macro expression (and the value is the model's, so the measured evaluation did what it should). Non-trivial = >= 2 branches, >= 2 steps and a `??`".to_string();
     c.assumptions.push("allocations are counted on the evaluating thread only; the sequential macros do not use other threads".to_string());
     c
 }
